@@ -313,9 +313,60 @@ def _same_value(tr, a, b):
     return False
 
 
+def _check_fallback_match(tr, rep, b, g, c, V):
+    """the conversion result is matched (`match Duration::try_from_secs_f64(x) { Ok(d) => d, Err(_) if x > 0.0 => MAX,
+    Err(_) => initial }`): on the failure edge every value other than Duration::MAX is produced only behind the false edge
+    of the sign test `x > 0` of the converted number — for a positive x (a huge product, +inf) the delay saturates"""
+    n = 0
+    x = peel(tr.expand(tr.operand(b, c.args[0], c.loc))) if c.args else None
+    for bb in range(g.n):
+        sw = g.switch(bb)
+        if sw is None or sw.kind != "enum" or "Err" not in sw.variants or "Ok" not in sw.variants:
+            continue
+        if peel(tr.expand(tr.place(b, sw.place, sw.defloc))) != V:
+            continue
+        n += 1
+        # the result of the match: the Duration local written on both sides
+        def written(tgt):
+            out = set()
+            for y in g.reach([tgt], kinds=(N,)):
+                for s_ in g.stmts(y):
+                    if s_["k"] == "assign" and not s_["lhs"]["p"] and "Duration" in b.local_ty(s_["lhs"]["l"])["s"] and "Result" not in b.local_ty(s_["lhs"]["l"])["s"]:
+                        out.add(s_["lhs"]["l"])
+            return out
+        both = written(sw.variants["Ok"]) & written(sw.variants["Err"])
+        only_err = {l_ for l_ in both}
+        res = both or None
+        sign_false = []
+        for b2 in range(g.n):
+            s2 = g.switch(b2)
+            if s2 is None or s2.kind != "bool":
+                continue
+            cm = normalise_cmp(tr, peel(tr.expand(tr.operand(b, s2.cond, (b2, len(g.stmts(b2)))))))
+            if cm and cm[0] in ("Gt", "Ge") and peel(cm[2])[0] == "const" and (x is None or peel(cm[1]) == x):
+                sign_false.append((b2, s2.variants["false"]))
+        r_ = g.reach([sw.variants["Err"]], kinds=(N,), avoid_edges=sign_false)
+        bad = []
+        if res is not None:
+            for y in r_:
+                for j_, s_ in enumerate(g.stmts(y)):
+                    if s_["k"] == "assign" and s_["lhs"]["l"] in res and not s_["lhs"]["p"]:
+                        v = peel(tr.stmt_value(b, y, j_))
+                        if not (v[0] == "const" and (v[2] or "").endswith("Duration::MAX")):
+                            bad.append((y, j_, v))
+        ok = res is not None and bool(sign_false) and not bad
+        rep.ob("C14.SATURATE", skey(b, "fallback-match#%d" % (n - 1)), ok, g.where(bb),
+               "a failed float-to-Duration conversion saturates (Duration::MAX unless the number is not positive)" if ok else
+               "a failed float-to-Duration conversion of a positive number can fall back to %s: once the product overflows (or is "
+               "infinite) the delay drops below earlier delays (not monotone, not capped-afterwards)"
+               % (show(bad[0][2])[:50] if bad else "a value that is not Duration::MAX"))
+    return n
+
+
 def _check_fallback(tr, rep, b, g, c):
     """uses of the conversion result: unwrap_or(fallback) must saturate"""
     V = ("call", b.crate.name, b.def_, c.bb)
+    _check_fallback_match(tr, rep, b, g, c, V)
     for u in g.calls():
         if u.name in ("unwrap_or", "unwrap_or_else", "unwrap_or_default", "unwrap", "expect") and u.args:
             src = peel(tr.expand(tr.operand(b, u.args[0], u.loc)))
